@@ -439,6 +439,9 @@ namespace sim
 
 		void on_lookup(boost::system::error_code const& ec);
 
+		// arms m_timer for the lookup at the front of the queue
+		void wait_for_front();
+
 		struct result_t
 		{
 			chrono::high_resolution_clock::time_point completion_time;
@@ -470,6 +473,11 @@ namespace sim
 		using queue_t = aux::noexcept_movable<std::vector<result_t>>;
 
 		queue_t m_queue;
+
+		// the timer's completion handler may already be queued for execution
+		// when the resolver is destroyed. It holds a weak reference to this
+		// token and does not touch the resolver once it is gone
+		std::shared_ptr<bool> m_alive = std::make_shared<bool>(true);
 	};
 
 	struct SIMULATOR_DECL udp
